@@ -106,7 +106,7 @@ def requires_closure(rel):
             continue
         seen.append(cur)
         text = open(os.path.join(COQ, cur)).read()
-        for m in re.finditer(r"Require\s+(?:Import|Export)?\s*([^.]*(?:\.[A-Za-z0-9_]+)*)\.", text):
+        for m in re.finditer(r"Require\s+(?:Import\s+|Export\s+)?((?:[A-Za-z0-9_.']+\s+)*[A-Za-z0-9_.']+)\s*\.(?=\s|$)", text):
             for name in m.group(1).split():
                 if name in index:
                     todo.append(index[name])
